@@ -33,7 +33,7 @@ func TestMain(m *testing.M) {
 	}
 	tmpDir = d
 	os.WriteFile(filepath.Join(d, "存在.txt"), []byte("内容"), 0o644)
-	defer os.RemoveAll(d)
+	h.AtExit(func() { os.RemoveAll(d) })
 	h.Main(m, "C10", replay)
 }
 
